@@ -12,3 +12,4 @@ def run(ck):
     traps.r6_trap_extents(ck, P)
     traps.r7_error_term_width(ck, P)
     traps.r8_fill_count_restart(ck, P)
+    traps.r9_edge_step_conservation(ck, P)
